@@ -1,4 +1,4 @@
-"""C20 -- completion proposals (clauses R20.1-R20.18)."""
+"""C20 -- completion proposals (clauses R20.1-R20.20)."""
 from __future__ import annotations
 
 import ast
@@ -22,6 +22,8 @@ EXPLANATION += ' R20.15: the returned prefix is cut from the start offset that i
 EXPLANATION += ' R20.13: identifier characters.  R20.14: an object expression is split off only behind a character found to be a dot.'
 EXPLANATION += " R20.16: in the anchored modules and the shared text utilities no source text is cut with str.splitlines() (it breaks at form feed, \x1c-\x1e, \x85, U+2028/9; rope's and the ast's line numbers count \n only)."
 EXPLANATION += " R20.18: every while loop that steps an index forward through a text compares the index with the length in its test."
+EXPLANATION += " R20.19: in the word finder an offset clamped to len(self.code) is never handed to a method that reads self.code at that offset."
+EXPLANATION += " R20.20: in the repair of an incomplete line the `pass` placeholder keeps the statement's own indentation or goes one level inside the header above it."
 ASSUMPTIONS = ["proposal name is the first constructor argument"]
 
 PROPOSALS = {"CompletionProposal", "NamedParamProposal"}
@@ -400,6 +402,10 @@ def check(ctx, res) -> None:
     from .common import line_model_rule as _lm
 
     _lm(ctx, res, "R20.16", ('rope.contrib.codeassist', 'rope.contrib.fixsyntax', 'rope.contrib.findit', 'rope.base.worder', 'rope.base.evaluate'))
+    _placeholder_keeps_the_depth_rule(ctx, res)
+    from .common import clamped_offset_rule as _co
+
+    _co(ctx, res, "R20.19")
     from .common import bounded_scan_rule as _bs
 
     _bs(ctx, res, "R20.18")
@@ -487,3 +493,37 @@ def _prefix_matches_its_start_rule(ctx, res) -> None:
                 f"{bad}: with the cursor after `obj. ` the split is ('obj', ' ', offset) -- completion filters the attributes with the prefix ' ' and proposes nothing, "
                 "although every attribute is visible there", function=f.qualname)
     res.floor("R20.15", "splits with a computed prefix", n, 1)
+
+
+def _placeholder_keeps_the_depth_rule(ctx, res) -> None:
+    """R20.20: completion on an incomplete line works on a repaired copy of the module in which the statement at the cursor is replaced by
+    `pass`.  The `pass` stands in the BLOCK the statement stands in -- at the statement's own indentation, or one level inside the
+    header on the line above (`if x:` + cursor line) -- otherwise the cursor leaves its function and the locals are not offered
+    (or the repaired module does not parse).  The previous non-blank physical line says nothing about the block when it is the tail
+    of a triple-quoted string, a commented-out line in column 0 or a header with a trailing comment.  In the repair every store into
+    the indentation of the placeholder is the statement's own indentation or `<indentation of the header> + <a positive constant>`:
+    never the bare indentation of the line above."""
+    idx = ctx.idx
+    f = idx.need_func("rope.contrib.fixsyntax._Commenter.comment")
+    # the variable that indents the placeholder: `" " * <v> + "pass"`
+    vs = {y.id for x in walk_local(f.node) if isinstance(x, ast.BinOp) and isinstance(x.op, ast.Add) and isinstance(x.right, ast.Constant) and x.right.value == "pass"
+          for y in ast.walk(x.left) if isinstance(y, ast.Name)}
+    if len(vs) != 1:
+        raise AnalysisError(f"anchor=_Commenter.comment: the indentation of the `pass` placeholder not found ({sorted(vs)})")
+    v = next(iter(vs))
+    stores = [x for x in walk_local(f.node) if isinstance(x, ast.Assign) and any(isinstance(t, ast.Name) and t.id == v for t in x.targets)]
+    if not stores:
+        raise AnalysisError("anchor=_Commenter.comment: no store into the placeholder's indentation")
+    first = min(stores, key=lambda x: x.lineno)
+    n = 0
+    for x in sorted(stores, key=lambda x: x.lineno):
+        n += 1
+        plus = isinstance(x.value, ast.BinOp) and isinstance(x.value.op, ast.Add) and any(
+            isinstance(c, ast.Constant) and isinstance(c.value, int) and c.value > 0 for c in (x.value.left, x.value.right))
+        ok = x is first or plus
+        res.add("R20.20", f"_Commenter.comment|placeholder-keeps-the-depth#{n}", ok, f"{f.unit.rel}:{x.lineno}",
+                "the placeholder is indented like the statement it replaces, or one level inside the header above it" if ok else
+                f"`{ast.unparse(x)[:70]}` moves the placeholder to the indentation of the line ABOVE: when that line is the tail of a triple-quoted string, commented-out code in column 0 "
+                "or `if x:  # note`, the incomplete statement and the rest of its block become a module-level `pass` -- the function's locals with the typed prefix are not offered, or "
+                "the repaired module does not parse and code_assist raises", function=f.qualname)
+    res.floor("R20.20", "stores into the placeholder's indentation", n, 2)
